@@ -167,9 +167,20 @@ def make_case(rng, method=None):
     else:
         cidx, _ = gen.design(rng, n_cond, design, rmax=3)
         cond, fold = [int(c) for c in cidx], None
+    omit_cv = False
+    if cvm and rng.integers(5) == 0:
+        # every observation is its own fold (a trial counter as fold descriptor, or no fold descriptor at all for a
+        # cross-validated method): only the products of an observation with itself are excluded
+        reps_c = int(rng.integers(2, 4))
+        cond = [c for c in range(n_cond) for _ in range(reps_c)]
+        fold = list(range(len(cond)))
+        design = 'own_folds'
+        omit_cv = bool(rng.integers(2))
     order = [int(i) for i in rng.permutation(len(cond))]
     cond = [cond[i] for i in order]
     fold = None if fold is None else [fold[i] for i in order]
+    if design == 'own_folds':
+        fold = list(range(len(cond)))
     lk = gen.pick(rng, gen.LABEL_KINDS)
     labs = gen.labels(rng, n_cond, lk)
     pos = method in ('poisson', 'poisson_cv')
@@ -184,7 +195,10 @@ def make_case(rng, method=None):
         fold_labels = [int(v) for v in rng.choice(np.arange(-3, 30), size=8, replace=False)]
     else:   # session.run codes: several folds share the integer part
         fold_labels = [float(v) for v in rng.permutation([1.1, 1.2, 1.5, 2.1, 2.25, 2.5, 0.25, 0.75])]
-    return dict(fold_labels=fold_labels, fold_kind=fk, method=method, n_cond=n_cond, n_ch=n_ch, design=design, cond=cond, fold=fold, labs=labs, lk=lk, vk=vk,
+    if design == 'own_folds':
+        fold_labels = list(range(100, 100 + len(cond)))
+        fk = 'int'
+    return dict(omit_cv=omit_cv, fold_labels=fold_labels, fold_kind=fk, method=method, n_cond=n_cond, n_ch=n_ch, design=design, cond=cond, fold=fold, labs=labs, lk=lk, vk=vk,
                 meas=meas, nan=nan, prec=prec, weighting=gen.pick(rng, ['number', 'number', 'equal']),
                 lam=float(gen.pick(rng, [1.0, 0.5])), w=float(gen.pick(rng, [0.1, 1.0])),
                 container=gen.pick(rng, gen.CONTAINERS), layout=gen.pick(rng, ['C', 'F', 'strided']))
@@ -231,7 +245,7 @@ def call_unb(case, ds):
     kw = dict(method=case['method'], descriptor='cond', weighting=case['weighting'])
     if case['method'] in ('mahalanobis', 'crossnobis') and case['prec'] is not None:
         kw['noise'] = case['prec'].copy()
-    if case['fold'] is not None:
+    if case['fold'] is not None and not case.get('omit_cv'):
         kw['cv_descriptor'] = 'fold'
     if case['method'] in ('poisson', 'poisson_cv'):
         kw.update(prior_lambda=case['lam'], prior_weight=case['w'])
